@@ -29,6 +29,7 @@ type MsgSpec struct {
 	T  int64  `json:"t"`            // time, microseconds relative to the history's T0
 	Z  bool   `json:"z,omitempty"`  // zero time: the log assigns time.Now()
 	O  int64  `json:"o,omitempty"`  // offset supplied by the caller (must be ignored)
+	NS int    `json:"ns,omitempty"` // nanoseconds (1..999) on top of the microsecond time: the log keeps the microsecond (floor)
 }
 
 type OptSpec struct {
@@ -267,6 +268,11 @@ func (x *Exec) build(batch []MsgSpec) []klevdb.Message {
 			msgs[i].Time = time.UnixMicro(x.h.TimeTable[s.T]).UTC()
 		} else if !s.Z {
 			msgs[i].Time = time.UnixMicro(x.t0 + s.T).UTC()
+		}
+		if s.NS > 0 && !s.Z && !msgs[i].Time.IsZero() {
+			if t := msgs[i].Time.Add(time.Duration(s.NS)); t.UnixMicro() == msgs[i].Time.UnixMicro() { // not at the end of the range
+				msgs[i].Time = t
+			}
 		}
 	}
 	return msgs
